@@ -4,7 +4,7 @@ import ExaModel.Driver.Util
 
    pack run <M> <attrDef> <attrNoDef> <negotiated> <simple> <famOrder> <includeWithdraw> <anns> <wds>
      lists comma-separated (`-` = empty); an NLRI is `id:size:fam:v4:nh:nhLen`
-   answer: `<status> <n> | <msg> | <msg> …` with
+   answer: `<status> <n> <number of log.critical calls> | <msg> | <msg> …` with
      msg = `<len> w=<ids> u=<fam>:<ids>|- a=<0|1> r=<fam>:<nh>:<ids>|- n=<ids>`  (ids joined with `.`)
 -/
 namespace Exa.Driver
@@ -26,7 +26,6 @@ def showIds (l : List Nlri) : String :=
 def showStatus : Status → String
   | .ok => "ok"
   | .noRoom => "noroom"
-  | .raised => "raised"
   | .tooLong => "toolong"
 
 /-- `a=1` iff attribute bytes other than MP_REACH/MP_UNREACH are on the wire: the block was
@@ -40,8 +39,8 @@ def showMsg (attrLen : Nat) (m : Msg) : String :=
     | some a => s!"{a.fam}:{a.nh}:{showIds a.items}"
   s!"{m.len} w={showIds m.wd4} u={u} a={if m.attrs && attrLen > 0 then 1 else 0} r={r} n={showIds m.ann4}"
 
-def showOut (attrLen : Nat) (o : Out) : String :=
-  let head := s!"{showStatus o.status} {o.msgs.length}"
+def showOut (attrLen logged : Nat) (o : Out) : String :=
+  let head := s!"{showStatus o.status} {o.msgs.length} {logged}"
   if o.msgs.isEmpty then head else head ++ " | " ++ " | ".intercalate (o.msgs.map (showMsg attrLen))
 
 def showNlri (x : Nlri) : String :=
@@ -62,7 +61,7 @@ def packLine (ws : List String) : String :=
     | some m, some ad, some an, some neg, some simp, some fo, some iw, some anns, some wds =>
       let i : Input := { M := m, attrDef := ad, attrNoDef := an, negotiated := neg, simple := simp,
                          famOrder := fo, anns := anns, wds := wds, includeWithdraw := iw }
-      showOut (chosenAttr i) (pack i)
+      showOut (chosenAttr i) (logged i) (pack i)
     | _, _, _, _, _, _, _, _, _ => "bad-op"
   | _ => "bad-op"
 
